@@ -835,6 +835,9 @@ impl Axecutor {
         // envp[0] = NULL
         stack_layout.push(0);
 
+        // Room for the frame on top of the requested stack size, including what alignment can cost
+        let frame_len = (stack_layout.len() as u64) * 8 + 32;
+
         let mut stack_start: u64 = 0x1000;
         loop {
             if stack_start >= 0x7fff_ffff_ffff_ffff {
@@ -844,11 +847,7 @@ impl Axecutor {
             }
 
             if self
-                .mem_init_zero_named(
-                    stack_start,
-                    length + (stack_layout.len() as u64) * 8,
-                    "Stack".to_string(),
-                )
+                .mem_init_zero_named(stack_start, length + frame_len, "Stack".to_string())
                 .is_ok()
             {
                 break;
@@ -857,8 +856,10 @@ impl Axecutor {
         }
 
         // TODO: auxiliary vector
-        // Make sure the stack is aligned to 16 bytes
-        let mut stack_top = (stack_start + length - 16) & !0xf;
+        // The frame goes to the very top of the area, which was made `frame_len` bytes larger than
+        // requested for this purpose, so that `length` bytes stay free below it however long the
+        // argument and environment lists are. Make sure the stack is aligned to 16 bytes
+        let mut stack_top = (stack_start + length + frame_len - 16) & !0xf;
         if stack_layout.len() % 2 == 1 {
             // However, if we push an uneven amount of 64 bit values, we need to adjust
             stack_top -= 8;
